@@ -71,6 +71,39 @@ theorem merge_tests (s : Pure) (a b : Nat) (x y : PObj) (ha : s[a]? = some x) (h
     (Pure.step s (.merge a b)) = s ++ [⟨fmUnion x.fields y.fields, x.tests ++ y.tests⟩] := by
   simp [Pure.step, ha, hb]
 
+/-- Merge is associative on the fields: folding three operands left to right or right to left selects the
+    same schema for every key (this is what `x.Merge(y, z)` in one call must agree with) -/
+theorem union_assoc (a b c : FieldMap) (k : String) (v : Nat) :
+    (k, v) ∈ fmUnion (fmUnion a b) c ↔ (k, v) ∈ fmUnion a (fmUnion b c) := by
+  simp only [union_fields]
+  constructor
+  · rintro (h | ⟨h | ⟨h1, h2⟩, h3⟩)
+    · exact Or.inl (Or.inl h)
+    · exact Or.inl (Or.inr ⟨h, h3⟩)
+    · refine Or.inr ⟨h1, fun w hw => ?_⟩
+      rcases hw with hw | ⟨hw, _⟩
+      · exact h3 w hw
+      · exact h2 w hw
+  · rintro (h | ⟨h1, h2⟩)
+    · rcases h with h | ⟨h, h3⟩
+      · exact Or.inl h
+      · exact Or.inr ⟨Or.inl h, h3⟩
+    · have hc : ∀ w, (k, w) ∉ c := fun w hw => h2 w (Or.inl hw)
+      have hb : ∀ w, (k, w) ∉ b := fun w hw => h2 w (Or.inr ⟨hw, hc⟩)
+      exact Or.inr ⟨Or.inr ⟨h1, hb⟩, hc⟩
+
+/-- a three-operand Merge as the model folds it: fields by `union_assoc`, tests in operand order -/
+theorem merge3_tests (s : Pure) (a b c : Nat) (x y z : PObj) (ha : s[a]? = some x) (hb : s[b]? = some y) (hc : s[c]? = some z)
+    (hca : c < s.length) :
+    (Pure.step (Pure.step s (.merge a b)) (.merge s.length c)) =
+      s ++ [⟨fmUnion x.fields y.fields, x.tests ++ y.tests⟩, ⟨fmUnion (fmUnion x.fields y.fields) z.fields, x.tests ++ y.tests ++ z.tests⟩] := by
+  rw [merge_tests s a b x y ha hb]
+  have h1 : (s ++ [(⟨fmUnion x.fields y.fields, x.tests ++ y.tests⟩ : PObj)])[s.length]? = some ⟨fmUnion x.fields y.fields, x.tests ++ y.tests⟩ := by simp
+  have h2 : (s ++ [(⟨fmUnion x.fields y.fields, x.tests ++ y.tests⟩ : PObj)])[c]? = some z := by
+    rw [List.getElem?_append_left hca]; exact hc
+  rw [merge_tests _ s.length c _ z h1 h2]
+  simp
+
 /-! ## the defect this property is about, reproduced by the model when the clone shares (D14) -/
 
 def d14 : List Op := [.mk [("a", 0), ("b", 1)], .test 0 10, .test 0 11, .test 0 12,   -- base with spare capacity
